@@ -4,6 +4,7 @@
    statement (production: 20, 500). *)
 From Coq Require Import List ZArith.
 From Goloop Require Import Model_Flood Proofs_Flood.
+From Goloop Require Import Link_C33.
 Import ListNotations.
 
 (* a one-hop packet (ttl != 0 or dest = peer) that passes the protocol/connection checks is
@@ -89,3 +90,36 @@ Print Assumptions C33_new_node_inv.
 Theorem C33_window_tight_default : last_result 20 500 (tight_stream 20 500 (window 20 500)) = Some true.
 Proof. exact tight_default. Qed.
 Print Assumptions C33_window_tight_default.
+
+(* ---- kernel links (Link_C33.v).  The five kernels are re-generated from
+   network/p2p.go (onPacket) and network/peer.go (PeerRoleFlag.Has) on every run
+   (tools/go2coq); the five boolean decisions of the model, used in all theorems
+   above, ARE the decisions of the current Go code ---- *)
+Theorem C33_kernel_onPacketIsOneHop : forall ttl dest,
+  is_one_hop ttl dest = onPacketIsOneHop ttl dest.
+Proof. exact is_one_hop_is_kernel. Qed.
+Print Assumptions C33_kernel_onPacketIsOneHop.
+
+Theorem C33_kernel_onPacketIsBroadcast : forall dest ttl,
+  is_broadcast dest ttl = onPacketIsBroadcast dest ttl.
+Proof. exact is_broadcast_is_kernel. Qed.
+Print Assumptions C33_kernel_onPacketIsBroadcast.
+
+Theorem C33_kernel_onPacketDropOneHop : forall isOneHop isSourcePeer,
+  drop_one_hop isOneHop isSourcePeer = onPacketDropOneHop isOneHop isSourcePeer.
+Proof. exact drop_one_hop_is_kernel. Qed.
+Print Assumptions C33_kernel_onPacketDropOneHop.
+
+Theorem C33_kernel_onPacketDropBroadcast : forall isBroadcast isSourcePeer hasRoot,
+  drop_broadcast isBroadcast isSourcePeer hasRoot
+  = onPacketDropBroadcast isBroadcast isSourcePeer hasRoot.
+Proof. exact drop_broadcast_is_kernel. Qed.
+Print Assumptions C33_kernel_onPacketDropBroadcast.
+
+Theorem C33_kernel_peerRoleHas : forall pr o, role_has pr o = peerRoleHas pr o.
+Proof. exact role_has_is_kernel. Qed.
+Print Assumptions C33_kernel_peerRoleHas.
+
+Theorem C33_kernel_params : Link_C33.kernel_params_pinned.
+Proof. exact Link_C33.kernel_params_ok. Qed.
+Print Assumptions C33_kernel_params.
